@@ -483,7 +483,11 @@ def judgeC10 (o : Obs) : Verdict :=
     -- request for an item of this queue, at the end of a run that came to rest normally
     (let waiting := o.unfinished.filter (fun l => ((ofLabel o l).getLast?).any (fun p => p.1.tag == "getreq" && arg p.1 0 == q))
      fail (o.crash == [] && remaining > 0 && !waiting.isEmpty)
-       s!"queue {q}: {remaining} accepted item(s) are still buffered at the end although activity {waiting} is waiting to receive"))
+       s!"queue {q}: {remaining} accepted item(s) are still buffered at the end although activity {waiting} is waiting to receive" ++
+     -- "after close, items already buffered are still received and only then StreamClosed is raised": nobody is left waiting on a
+     -- queue that is closed and drained when the run has come to rest
+     fail (o.crash == [] && remaining == 0 && !waiting.isEmpty && o.events.any (fun c => c.tag == "qclose" && arg c 0 == q))
+       s!"queue {q} was closed and is empty, but activity {waiting} still waits to receive at the end of the run (StreamClosed was never raised)"))
 
 /-! ### C11 - Channel -/
 
